@@ -2513,6 +2513,347 @@ def parent(repo, out):
                     out.unsure(fn, astx.stmt_of(n), 'slice of the coordinate parts not recognised')
 
 
+# =========================================================================== C17.phys
+PHYS_FILES = [SYS, SLV, DRV, PRB, 'openmdao/core/group.py', 'openmdao/core/component.py']
+# record_iteration functions that run outside any solve, i.e. with the root vectors in the physical state
+PHYS_CALLED = {(DRV, 'record_iteration'): 'called by Driver.record_iteration / Problem.record at driver level, after '
+               'run_solve_nonlinear has left its scaled context'}
+_VEC_ATTR = {'_outputs': ('output', 'nonlinear'), '_residuals': ('residual', 'nonlinear'),
+             '_inputs': ('input', 'nonlinear'), '_doutputs': ('output', 'linear'),
+             '_dresiduals': ('residual', 'linear'), '_dinputs': ('input', 'linear')}
+_GETTERS = {'get_nonlinear_vectors': 'nonlinear', 'get_linear_vectors': 'linear'}
+
+
+def _vec_name_value(flow, e, at, near=None):
+    """Constant vector name ('nonlinear'/'linear') or ('var', name) of a vec_name expression; None if unknown.
+
+    near: a statement; a constant assigned to the variable in the same statement list wins (branch correlation).
+    """
+    if astx.const_str(e) is not None:
+        return astx.const_str(e)
+    if isinstance(e, ast.Name):
+        if near is not None:
+            par = getattr(near, '_parent', None)
+            for fld in ('body', 'orelse'):
+                lst = getattr(par, fld, None)
+                if isinstance(lst, list) and any(near is x for x in lst):
+                    for st in lst:
+                        if isinstance(st, ast.Assign) and len(st.targets) == 1 and astx.path(st.targets[0]) == e.id \
+                                and astx.const_str(st.value) is not None:
+                            return astx.const_str(st.value)
+        v, _ = flow.single(e.id, at)
+        if v is not None and astx.const_str(v) is not None:
+            return astx.const_str(v)
+        return ('var', e.id)
+    return None
+
+
+def _vec_ident(flow, e, at, vname, depth=0):
+    """Set of (kind, matches-vec_name?) a vector expression can denote; None if not recognised.
+
+    vname: the vec_name argument expression of the reads.
+    """
+    want = _vec_name_value(flow, vname, at)
+    if isinstance(e, ast.Subscript) and isinstance(e.value, ast.Subscript) and \
+            (astx.path(e.value.value) or '').endswith('._vectors'):
+        kind = astx.const_str(e.value.slice)
+        got = _vec_name_value(flow, e.slice, at)
+        if kind is None or got is None or want is None:
+            return None
+        return {(kind, got == want)}
+    if isinstance(e, ast.Attribute) and e.attr in _VEC_ATTR:
+        kind, vn = _VEC_ATTR[e.attr]
+        return {(kind, vn == want)} if isinstance(want, str) else None
+    if isinstance(e, ast.Name) and depth < 3:
+        out = set()
+        vs = flow.values(e.id, at)
+        if not vs:
+            return None
+        for v in vs:
+            if v[0] == 'other' and getattr(v[1], 'kind', None) == 'stmt' and isinstance(v[1].ast, ast.Assign):
+                val, d = v[1].ast.value, v[1]       # tuple target unpacking a call result
+            elif v[0] == 'expr':
+                val, d = v[1], v[2]
+            else:
+                return None
+            if isinstance(val, ast.Call) and astx.callee_attr(val) in _GETTERS:
+                # tuple unpacking  inputs, outputs, residuals = X.get_*_vectors()
+                tg = d.ast.targets[0] if isinstance(d.ast, ast.Assign) else None
+                if not isinstance(tg, ast.Tuple) or len(tg.elts) != 3:
+                    return None
+                idx = [i for i, t in enumerate(tg.elts) if astx.path(t) == e.id]
+                if len(idx) != 1:
+                    return None
+                w = _vec_name_value(flow, vname, at, near=d.ast)
+                if not isinstance(w, str):
+                    return None
+                out.add((('input', 'output', 'residual')[idx[0]], _GETTERS[astx.callee_attr(val)] == w))
+            else:
+                r = _vec_ident(flow, val, d, vname, depth + 1)
+                if r is None:
+                    return None
+                out |= r
+        return out
+    return None
+
+
+@rule('C17.phys', floor=2)
+def phys(repo, out):
+    """record_iteration methods that read vectors through _retrieve_data_of_kind do so, and hand the data to the recorders, inside _unscaled_context(outputs=[output vec], residuals=[residual vec]) of the same vec_name."""
+    found = 0
+    for rel in PHYS_FILES:
+        if not repo.exists(rel) or '_retrieve_data_of_kind' not in repo.source(rel):
+            continue
+        m = repo.module(rel)
+        for f in m.funcs.values():
+            if f.node.name != 'record_iteration':
+                continue
+            reads = [c for c in astx.calls(f.node) if astx.callee_attr(c) == '_retrieve_data_of_kind']
+            # one level of helper: self.<h>(...) whose body does the reads
+            if f.cls is not None:
+                cls = f.qualname.rsplit('.', 1)[0]
+                for c in astx.calls(f.node):
+                    if astx.path(astx.receiver(c)) == 'self':
+                        h = m.funcs.get(f'{cls}.{astx.callee_attr(c)}')
+                        if h is not None and h is not f and any(
+                                astx.callee_attr(x) == '_retrieve_data_of_kind' for x in astx.calls(h.node)):
+                            reads.append(c)
+            if not reads:
+                continue
+            found += 1
+            if (rel, f.qualname) in PHYS_CALLED:
+                out.ok(f, reads[0], 'physical state: ' + PHYS_CALLED[(rel, f.qualname)])
+                continue
+            key = 'record-scaled-' + (f.qualname.split('.')[0].lower() if f.cls is not None else f.qualname)
+            hands = [c for c in astx.calls(f.node) if astx.callee_attr(c) == 'record_iteration' and
+                     (astx.path(astx.receiver(c)) or '').endswith('._rec_mgr')]
+            if not hands:
+                out.unsure(f, f.node, 'no hand-over to _rec_mgr.record_iteration found')
+                continue
+            flow = func_flow(repo, f)
+
+            def ctx_of(node):
+                for a in astx.ancestors(node):
+                    if isinstance(a, ast.With):
+                        for it in a.items:
+                            ce = it.context_expr
+                            if isinstance(ce, ast.Call) and astx.callee_attr(ce) == '_unscaled_context':
+                                return a, ce
+                    if a is f.node:
+                        break
+                return None, None
+            problem = None
+            withs = {}
+            for c in reads + hands:
+                w, ce = ctx_of(c)
+                if w is None:
+                    what = 'vector read' if c in reads else 'hand-over to the recorders (the dictionary holds views)'
+                    problem = (c, f'{what} `{astx.src(c, 70)}` is outside any _unscaled_context: this method runs '
+                               'inside the solve (Recording.__exit__) where outputs/residuals are in the scaled '
+                               'state, so (y-ref0)/(ref-ref0) is recorded instead of y')
+                    break
+                withs[id(w)] = (w, ce)
+            if problem is None and len(withs) != 1:
+                problem = (reads[0], 'reads and hand-over are spread over several _unscaled_context blocks: views '
+                           'taken in one block are rescaled when it exits')
+            undec = None
+            if problem is None:
+                w, ce = next(iter(withs.values()))
+                vnames = {astx.dump(astx.arg(c, 2, 'vec_name')) for c in reads
+                          if astx.callee_attr(c) == '_retrieve_data_of_kind' and astx.arg(c, 2, 'vec_name') is not None}
+                vexpr = next((astx.arg(c, 2, 'vec_name') for c in reads
+                              if astx.callee_attr(c) == '_retrieve_data_of_kind'), None)
+                if vexpr is None or len(vnames) != 1:
+                    undec = 'vec_name of the reads not identified'
+                else:
+                    at = flow.g.nodes_of(w)[0]
+                    for argname, pos, kind in (('outputs', 0, 'output'), ('residuals', 1, 'residual')):
+                        lst = astx.arg(ce, pos, argname)
+                        if lst is None or (isinstance(lst, (ast.List, ast.Tuple)) and not lst.elts):
+                            problem = (ce, f'_unscaled_context is entered without {argname}=[...]: the {kind} vector '
+                                       'stays scaled while it is recorded')
+                            break
+                        if not isinstance(lst, (ast.List, ast.Tuple)):
+                            undec = f'{argname} argument is not a literal list'
+                            break
+                        ids = set()
+                        for e in lst.elts:
+                            r = _vec_ident(flow, e, at, vexpr)
+                            if r is None:
+                                undec = f'vector `{astx.src(e)}` not identified'
+                                break
+                            ids |= r
+                        if undec:
+                            break
+                        if (kind, True) not in ids or any(k == kind and not okv for k, okv in ids):
+                            have = sorted(f"{k}/{'same vec_name' if okv else 'other vec_name'}" for k, okv in ids)
+                            problem = (ce, f'{argname}=[{", ".join(astx.src(e) for e in lst.elts)}] denotes {have}: the '
+                                       f'{kind} vector selected by `{astx.src(vexpr)}` (the one the reads use) is not '
+                                       'the one put into the physical state')
+                            break
+            if problem:
+                out.bad(f, problem[0], problem[1], key=key)
+            elif undec:
+                out.unsure(f, f.node, undec)
+            else:
+                out.ok(f, next(iter(withs.values()))[0], 'reads and hand-over inside _unscaled_context(outputs, residuals) '
+                       'of the vec_name that is read')
+    if found == 0:
+        raise AnalysisError('no record_iteration reading vectors through _retrieve_data_of_kind found')
+
+
+# =========================================================================== C17.units
+def _flows_through_conns(block, expr, depth=0):
+    """True if expr, with the locals assigned inside *block* expanded, reads the input->source map `_conns`."""
+    if any(isinstance(n, ast.Attribute) and n.attr == '_conns' for n in astx.walk(expr)):
+        return True
+    if depth > 3:
+        return False
+    for nm in astx.names(expr):
+        for st in astx.walk_stmts(block):
+            if isinstance(st, ast.Assign) and any(astx.path(t) == nm for t in astx.assigned_targets(st)):
+                if _flows_through_conns(block, st.value, depth + 1):
+                    return True
+    return False
+
+
+def _prom_branch(f, kind):
+    """(if-stmt, body) of the branch of f guarded by  name in <prom2abs>['kind']  (positive conjunct)."""
+    name = [a.arg for a in f.node.args.args][1]
+    for st in astx.walk_stmts(f.node.body):
+        if not isinstance(st, ast.If):
+            continue
+        for a, pol in conjuncts(st.test):
+            if pol and isinstance(a, ast.Compare) and len(a.ops) == 1 and isinstance(a.ops[0], ast.In) and \
+                    isinstance(a.left, ast.Name) and a.left.id == name and isinstance(a.comparators[0], ast.Subscript) \
+                    and astx.const_str(a.comparators[0].slice) == kind and \
+                    astx.mentions(a.comparators[0].value, '_prom2abs', 'prom2abs'):
+                return st
+    return None
+
+
+@rule('C17.units', floor=2)
+def units(repo, out):
+    """Case.get_val converts from the units of the variable the value was taken from: for a promoted input the value comes from the connected source, so must the units; for an output both are its own."""
+    gv = repo.func(CASE, 'Case.get_val')
+    if not any(astx.callee_attr(c) == '_get_units' for c in astx.calls(gv.node)):
+        raise AnalysisError('Case.get_val no longer takes its base units from Case._get_units')
+    fv = repo.func(CASE, 'Case.__getitem__')
+    fu = repo.func(CASE, 'Case._get_units')
+    for kind in ('input', 'output'):
+        bv, bu = _prom_branch(fv, kind), _prom_branch(fu, kind)
+        if bu is None:
+            out.unsure(fu, fu.node, f"no branch for promoted {kind} names in _get_units")
+            continue
+        # provenance of the value: through _conns (source output) or the variable itself
+        if bv is None:
+            val_src = False     # no special branch: the value is looked up under its own name
+        else:
+            rets = [st.value for st in astx.walk_stmts(bv.body) if isinstance(st, ast.Return) and st.value is not None]
+            if not rets:
+                out.unsure(fv, bv, 'value branch without return')
+                continue
+            val_src = any(_flows_through_conns(bv.body, r) for r in rets)
+        rets = [st for st in astx.walk_stmts(bu.body) if isinstance(st, ast.Return) and st.value is not None]
+        if not rets:
+            out.unsure(fu, bu, 'units branch without return')
+            continue
+        uni_src = [_flows_through_conns(bu.body, r.value) for r in rets]
+        if all(u == val_src for u in uni_src):
+            out.ok(fu, rets[0], f"promoted {kind}: value and units both come from "
+                   f"{'the connected source output' if val_src else 'the variable itself'}")
+        else:
+            out.bad(fu, rets[uni_src.index(not val_src)],
+                    f"for a promoted {kind} name Case.__getitem__ returns the value of "
+                    f"{'its connected source output (via _conns)' if val_src else 'the variable itself'} but "
+                    f"_get_units returns the units of {'the input itself' if val_src else 'the connected source'}: "
+                    'get_val(name, units=...) converts from the wrong units when the two differ',
+                    key=f'units-provenance-{kind}')
+
+
+# =========================================================================== C17.stack
+SAFE_ACCESSORS = {'_system': 'weak reference to the owning system', '_problem': 'weak reference to the problem',
+                  '_get_matvec_scope': 'returns cached scope sets, runs no user code',
+                  'recording_requester': 'weak reference held by the Recording context manager'}
+
+
+def _is_stack_call(c, meth):
+    return astx.callee_attr(c) == meth and (astx.path(astx.receiver(c)) or '').endswith('_recording_iter')
+
+
+@rule('C17.stack', floor=8)
+def stack(repo, out):
+    """Every `_recording_iter.push(...)` is matched by a `pop()` on all exits of the function, normal and exceptional (try/finally, catch-and-reraise, or the __enter__/__exit__ pair of a context manager)."""
+    for rel in repo.shipped():
+        src = repo.source(rel)
+        if '_recording_iter' not in src or '.push(' not in src:
+            continue
+        m = repo.module(rel)
+        for f in m.funcs.values():
+            pushes = [c for c in astx.calls(f.node) if _is_stack_call(c, 'push')]
+            if not pushes:
+                continue
+            g = cfgm.build(f)
+            pops = g.where(lambda n: any(_is_stack_call(c, 'pop') for c in n.calls()))
+            for pc in pushes:
+                pn = [n for n in g.nodes_of(astx.stmt_of(pc))]
+                if not pn:
+                    out.unsure(f, pc, 'push is not a plain statement')
+                    continue
+                if f.node.name == '__enter__' and f.cls is not None:
+                    ex = m.funcs.get(f.qualname.rsplit('.', 1)[0] + '.__exit__')
+                    if ex is None:
+                        out.bad(f, pc, '__enter__ pushes the recording stack but the class has no __exit__',
+                                key='stack-pair')
+                        continue
+                    eg = cfgm.build(ex)
+                    epops = eg.where(lambda n: any(_is_stack_call(c, 'pop') for c in n.calls()))
+                    w = eg.path([eg.entry], [eg.exit], avoid=epops, labels=cfgm.noexc)
+                    if w is not None or not epops:
+                        out.bad(ex, ex.node, '__exit__ can return without popping what __enter__ pushed: ' +
+                                eg.fmt_path(w), key='stack-pair')
+                    else:
+                        out.ok(f, pc, 'push in __enter__, pop on every normal path of __exit__')
+                    continue
+                # walk from the push: normal edges always, exceptional edges only out of statements that call
+                # something other than the tabled accessors
+                from collections import deque
+                start = [x for p_ in pn for x in g.normal_succ(p_)]
+                seen = set(start)
+                dq = deque(start)
+                par = {x: None for x in start}
+                leak = None
+                while dq:
+                    n = dq.popleft()
+                    if n in pops:
+                        continue
+                    if n is g.exit or n is g.raise_exit:
+                        leak = n
+                        break
+                    risky = any(astx.callee_attr(c) not in SAFE_ACCESSORS and not _is_stack_call(c, 'push')
+                                for c in n.calls()) or (n.kind == 'stmt' and isinstance(n.ast, ast.Raise))
+                    for m2, lab in g.succ[n]:
+                        if lab == 'exc' and not risky:
+                            continue
+                        if m2 not in seen:
+                            seen.add(m2)
+                            par[m2] = n
+                            dq.append(m2)
+                if leak is None:
+                    out.ok(f, pc, 'pop() on every normal and exceptional exit after the push')
+                else:
+                    pth = []
+                    n = leak
+                    while n is not None:
+                        pth.append(n)
+                        n = par[n]
+                    how = 'by an exception' if leak is g.raise_exit else 'normally'
+                    out.bad(f, pc, f'the function can be left {how} with the pushed entry still on the recording '
+                            "stack (for ('_run_apply'/'_compute_totals', 0) the no-record marker stays set and every "
+                            'later case is silently dropped; otherwise all later iteration coordinates are wrong): ' +
+                            g.fmt_path(pth[::-1]), key='stack-pair')
+
+
 # =========================================================================== self-test
 selftest(
     'C17',
@@ -2618,8 +2959,7 @@ selftest(
     # ---- gate
     Mutant('ga-wrong-kind', SLV, "data['output'] = system._retrieve_data_of_kind(filt, 'output', vec_name, local)",
            "data['output'] = system._retrieve_data_of_kind(filt, 'input', vec_name, local)", 'C17.gate'),
-    Mutant('ga-missing', SLV, "        if self.recording_options['record_inputs']:\n            data['input'] = system._retrieve_data_of_kind(filt, 'input', vec_name, local)\n\n",
-           '', 'C17.gate'),
+    Mutant('ga-missing', SLV, "data['input'] = system._retrieve_data_of_kind(filt, 'input', vec_name, local)", "pass", 'C17.gate'),
     Mutant('ga-sys-kind', SYS, "data['residual'] = self._retrieve_data_of_kind(filt, 'residual', vec_name, local)",
            "data['residual'] = self._retrieve_data_of_kind(filt, 'output', vec_name, local)", 'C17.gate'),
     # ---- effective
@@ -2629,9 +2969,9 @@ selftest(
            "if not opts['record_inputs'] and (inputs._names or len(discrete_inputs) > 0):", 'C17.effective'),
     Mutant('ef-select-opt', SLV, "if self.recording_options['record_outputs']:\n                myoutputs = [",
            "if self.recording_options['record_inputs']:\n                myoutputs = [", 'C17.effective'),
-    Mutant('ef-extra-gate', SLV, "if self.recording_options['record_solver_residuals']:\n            data['residual']",
-           "if self.recording_options['record_solver_residuals'] and self.recording_options['record_outputs']:\n            data['residual']",
-           'C17.effective'),
+    Mutant('ef-extra-gate', SLV, "if self.recording_options['record_solver_residuals']:",
+           "if self.recording_options['record_solver_residuals'] and self.recording_options['record_outputs']:",
+           'C17.effective', nth=1),
     Mutant('ef-drv-residual', DRV, "        if recording_options['record_residuals']:\n            match_names.update(model._residuals)",
            "        if recording_options['record_outputs']:\n            match_names.update(model._residuals)", 'C17.effective'),
     # ---- select
@@ -2701,6 +3041,52 @@ selftest(
     Mutant('pa-case', CASE, "self.parent = '|'.join(parts[:-2])", "self.parent = '|'.join(parts[:-1])", 'C17.parent'),
     Mutant('pa-nested', RDR, "parent_coord = '|'.join(case_coord.split('|')[:-2])", "parent_coord = '|'.join(case_coord.split('|')[:-3])",
            'C17.parent'),
+    # ---- units (value/units provenance of Case.get_val)
+    Mutant('un-own-units', CASE, "return meta[self._conns[abs_name]]['units']", "return meta[abs_name]['units']", 'C17.units'),
+    Mutant('un-output-via-conns', CASE, "            abs_name = prom2abs['output'][name][0]\n            return meta[abs_name]['units']",
+           "            abs_name = prom2abs['output'][name][0]\n            return meta[self._conns.get(abs_name, abs_name)]['units']", 'C17.units'),
+    Mutant('un-value-own', CASE, "                absout = self._conns[absin]\n", "                absout = absin\n", 'C17.units'),
+    Twin('tw-units-temp', CASE, "            abs_name = prom2abs['input'][name][0]\n            return meta[self._conns[abs_name]]['units']",
+         "            abs_in = prom2abs['input'][name][0]\n            src = self._conns[abs_in]\n            return meta[src]['units']"),
+    # ---- stack (push/pop of the recording iteration stack)
+    Mutant('sk-no-finally', SLV, "        self._recording_iter.push(('_run_apply', 0))\n        try:\n            self._system()._apply_nonlinear()\n        finally:\n            self._recording_iter.pop()",
+           "        self._recording_iter.push(('_run_apply', 0))\n        self._system()._apply_nonlinear()\n        self._recording_iter.pop()", 'C17.stack'),
+    Mutant('sk-nlbgs-no-finally', 'openmdao/solvers/nonlinear/nonlinear_block_gs.py',
+           "            try:\n                system._apply_nonlinear()\n            finally:\n                self._recording_iter.pop()",
+           "            system._apply_nonlinear()\n            self._recording_iter.pop()", 'C17.stack'),
+    Mutant('sk-no-pop', SLV, "        finally:\n            self._recording_iter.pop()\n\n    def _iter_initialize(self):", "        finally:\n            pass\n\n    def _iter_initialize(self):",
+           'C17.stack'),
+    Mutant('sk-exit-early-return', 'openmdao/recorders/recording_iteration_stack.py',
+           "        requester = self.recording_requester()\n        if requester._recording_iter._norec_refcount == 0:",
+           "        requester = self.recording_requester()\n        if requester._recording_iter._norec_refcount != 0:\n            return\n        if requester._recording_iter._norec_refcount == 0:", 'C17.stack'),
+    Mutant('sk-pop-only-on-error', SLV, "        self._recording_iter.push(('_run_apply', 0))\n        try:\n            self._system()._apply_nonlinear()\n        finally:\n            self._recording_iter.pop()",
+           "        self._recording_iter.push(('_run_apply', 0))\n        try:\n            self._system()._apply_nonlinear()\n        except Exception:\n            self._recording_iter.pop()\n            raise", 'C17.stack'),
+    Twin('tw-stack-catch-reraise', SLV, "        self._recording_iter.push(('_run_apply', 0))\n        try:\n            self._system()._apply_nonlinear()\n        finally:\n            self._recording_iter.pop()",
+         "        self._recording_iter.push(('_run_apply', 0))\n        try:\n            self._system()._apply_nonlinear()\n        except BaseException:\n            self._recording_iter.pop()\n            raise\n        self._recording_iter.pop()"),
+    Twin('tw-stack-local-system', SLV, "        self._recording_iter.push(('_run_apply', 0))\n        try:\n            self._system()._apply_nonlinear()\n        finally:\n            self._recording_iter.pop()",
+         "        rec_iter = self._recording_iter\n        system = self._system()\n        self._recording_iter.push(('_run_apply', 0))\n        try:\n            system._apply_nonlinear()\n        finally:\n            self._recording_iter.pop()"),
+    # ---- phys (anchored on the repaired shape of System/Solver.record_iteration)
+    Mutant('ph-context-dropped', SLV, "        with system._unscaled_context(outputs=[system._vectors['output'][vec_name]],\n                                      residuals=[system._vectors['residual'][vec_name]]):\n",
+           "        if True:\n", 'C17.phys'),
+    Mutant('ph-only-outputs', SLV, "        with system._unscaled_context(outputs=[system._vectors['output'][vec_name]],\n                                      residuals=[system._vectors['residual'][vec_name]]):\n",
+           "        with system._unscaled_context(outputs=[system._vectors['output'][vec_name]]):\n", 'C17.phys'),
+    Mutant('ph-handover-after', SLV, "                data['residual'] = system._retrieve_data_of_kind(filt, 'residual', vec_name, local)\n\n            self._rec_mgr.record_iteration(self, data, metadata)",
+           "                data['residual'] = system._retrieve_data_of_kind(filt, 'residual', vec_name, local)\n\n        self._rec_mgr.record_iteration(self, data, metadata)", 'C17.phys'),
+    Mutant('ph-wrong-vec-name', SLV, "outputs=[system._vectors['output'][vec_name]],", "outputs=[system._vectors['output']['nonlinear']],", 'C17.phys'),
+    Mutant('ph-sys-only-outputs', SYS, "with self._unscaled_context(outputs=[outputs], residuals=[residuals]):\n                if options['record_inputs']",
+           "with self._unscaled_context(outputs=[outputs]):\n                if options['record_inputs']", 'C17.phys'),
+    Mutant('ph-sys-wrong-kind', SYS, "with self._unscaled_context(outputs=[outputs], residuals=[residuals]):\n                if options['record_inputs']",
+           "with self._unscaled_context(outputs=[outputs], residuals=[outputs]):\n                if options['record_inputs']", 'C17.phys'),
+    Mutant('ph-sys-wrong-vec', SYS, "                    inputs, outputs, residuals = self.get_linear_vectors()\n                    vec_name = 'linear'",
+           "                    inputs, outputs, residuals = self.get_nonlinear_vectors()\n                    vec_name = 'linear'", 'C17.phys',
+           also=[(SYS, "with self._unscaled_context(outputs=[outputs], residuals=[residuals]):", "with self._unscaled_context(outputs=[outputs], residuals=[residuals]):")]),
+    Mutant('ph-sys-read-outside', SYS, "            with self._unscaled_context(outputs=[outputs], residuals=[residuals]):\n                if options['record_inputs'] and (inputs._names or len(discrete_inputs) > 0):\n                    data['input'] = self._retrieve_data_of_kind(filt, 'input', vec_name, local)\n",
+           "            if options['record_inputs'] and (inputs._names or len(discrete_inputs) > 0):\n                data['input'] = self._retrieve_data_of_kind(filt, 'input', vec_name, local)\n            with self._unscaled_context(outputs=[outputs], residuals=[residuals]):\n",
+           'C17.phys'),
+    Twin('tw-phys-locals', SLV, "        with system._unscaled_context(outputs=[system._vectors['output'][vec_name]],\n                                      residuals=[system._vectors['residual'][vec_name]]):\n",
+         "        outs = system._vectors['output'][vec_name]\n        resids = system._vectors['residual'][vec_name]\n        with system._unscaled_context(residuals=[resids], outputs=(outs,)):\n"),
+    Twin('tw-phys-sys-vectors', SYS, "with self._unscaled_context(outputs=[outputs], residuals=[residuals]):\n                if options['record_inputs']",
+         "with self._unscaled_context(outputs=[self._vectors['output'][vec_name]],\n                                        residuals=[self._vectors['residual'][vec_name]]):\n                if options['record_inputs']"),
     # ---- shapes accepted after the robustness round (temporaries, renamed cursor, extracted helper, guard clause)
     Twin('tw-row-vals-temp', REC, "                c.execute(\"INSERT INTO system_iterations(counter, iteration_coordinate, \"\n                          \"timestamp, success, msg, inputs , outputs , residuals ) \"\n                          \"VALUES(?,?,?,?,?,?,?,?)\",\n                          (self._counter, self._iteration_coordinate,\n                           metadata['timestamp'], metadata['success'], metadata['msg'],\n                           inputs_text, outputs_text, residuals_text))",
          "                row_vals = (self._counter, self._iteration_coordinate,\n                            metadata['timestamp'], metadata['success'], metadata['msg'],\n                            inputs_text, outputs_text, residuals_text)\n                c.execute(\"INSERT INTO system_iterations(counter, iteration_coordinate, \"\n                          \"timestamp, success, msg, inputs , outputs , residuals ) \"\n                          \"VALUES(?,?,?,?,?,?,?,?)\", row_vals)"),
@@ -2761,8 +3147,7 @@ selftest(
     Twin('tw-explicit-select', RDR, "cur.execute('select * from global_iterations')",
          "cur.execute('SELECT id, record_type, rowid, source FROM global_iterations ORDER BY id ASC')"),
     Twin('tw-range-one-arg', RDR, 'for i in range(0, parent_case_counter):', 'for i in range(parent_case_counter):'),
-    Twin('tw-ungated-retrieve', SLV, "        if self.recording_options['record_outputs']:\n            data['output'] = system._retrieve_data_of_kind(filt, 'output', vec_name, local)",
-         "        if True:\n            data['output'] = system._retrieve_data_of_kind(filt, 'output', vec_name, local)"),
+    Twin('tw-ungated-retrieve', SLV, "if self.recording_options['record_outputs']:", "if True:", nth=1),
     Twin('tw-inline-options', SYS, "            incl = options['includes']\n            excl = options['excludes']",
          "            incl = self.recording_options['includes']\n            excl = self.recording_options['excludes']"),
     Twin('tw-checkpath-any', RUTIL, "    for ex_pattern in excludes:\n        if fnmatchcase(path, ex_pattern):\n            return False\n",
